@@ -35,6 +35,7 @@ fn op2(op: &str, a: i16, b: i16) -> (i64, Result<i16, crate::util::PanicInfo>) {
         "sub" => ((a6 - b6).rem_euclid(Q), monitored(|| vh::felt_sub(a, b))),
         "mul" => ((a6 * b6).rem_euclid(Q), monitored(|| vh::felt_mul(a, b))),
         "multiply" => ((a6 * b6).rem_euclid(Q), monitored(|| vh::felt_multiply(a, b))),
+        "div" => ((a6 * crate::refs::spec::powm(b6, Q - 2)).rem_euclid(Q), monitored(|| vh::felt_div(a, b))),
         _ => unreachable!(),
     }
 }
@@ -70,6 +71,8 @@ pub fn exhaustive(ctx: &Ctx, rep: &mut Report) {
         }
         rep.count("unary_residues", 1);
     }
+    // reference inverses for the division check
+    let inv_tab: Vec<i64> = (0..Q).map(|b| if b == 0 { 0 } else { crate::refs::spec::powm(b, Q - 2) }).collect();
     // binary ops: all q^2 pairs, rows shared out to the workers
     let r = par_for(Q as usize, ncpu(), |a, rep| {
         let a = a as i16;
@@ -83,14 +86,20 @@ pub fn exhaustive(ctx: &Ctx, rep: &mut Report) {
                 bad += (vh::felt_sub(a, b) as i64 != (a6 - b6).rem_euclid(Q)) as u32;
                 bad += (vh::felt_mul(a, b) as i64 != (a6 * b6) % Q) as u32;
                 bad += (vh::felt_multiply(a, b) as i64 != (a6 * b6) % Q) as u32;
+                if b != 0 {
+                    bad += (vh::felt_div(a, b) as i64 != (a6 * inv_tab[b as usize]) % Q) as u32;
+                }
             }
             bad
         });
-        rep.evaluations += 4 * Q as u64;
+        rep.evaluations += 5 * Q as u64 - 1;
         rep.count("binary_pairs", Q as u64);
         if !matches!(row, Ok(0)) {
             for b in 0..Q as i16 {
-                for op in ["add", "sub", "mul", "multiply"] {
+                for op in ["add", "sub", "mul", "multiply", "div"] {
+                    if op == "div" && b == 0 {
+                        continue;
+                    }
                     let (want, got) = op2(op, a, b);
                     match got {
                         Err(p) => rep.violation(
